@@ -8,27 +8,6 @@ From NB Require Import Sys.Config.
 Import ListNotations.
 Local Open Scope list_scope.
 
-(* ---------- witnesses of the two known deviations (F11) ---------- *)
-Definition w_global_files : list json :=
-  [JObj [(of_ascii "Global", JObj [(of_ascii "log_level", JStr (of_ascii "DEBUG"))])]].
-Definition w_server_files : list json :=
-  [JObj [(of_ascii "Web", JObj [(of_ascii "port", JInt 9000)])]].
-
-Lemma global_section_refuted_lemma :
-  exists ep files o, In ep ep_names /\ In o (options ep) /\ wf_filesb files = true /\
-    effective ep files [] o <> Ok (spec_effective ep files [] o).
-Proof.
-  exists (of_ascii "nbdiff"), w_global_files, (of_ascii "log_level").
-  repeat split; try (vm_compute; tauto). vm_compute. discriminate.
-Qed.
-
-Lemma server_port_refuted_lemma :
-  exists files, wf_filesb files = true /\
-    effective (of_ascii "server") files [] (of_ascii "port") <> Ok (spec_effective (of_ascii "server") files [] (of_ascii "port")).
-Proof.
-  exists w_server_files. split; [vm_compute; reflexivity | vm_compute; discriminate].
-Qed.
-
 (* ================= association lists ================= *)
 Lemma str_eqb_false k k' : str_eqb k k' = false <-> k <> k'.
 Proof.
@@ -596,10 +575,85 @@ Proof. destruct n as [[]|]; simpl; intros H; try discriminate; auto. Qed.
 Lemma files_get_not_null get files : files_get get files <> Some JNull.
 Proof. induction files as [|f r IH]; simpl; [discriminate | apply ov_not_null; exact IH]. Qed.
 
-(* ================= assembling: build_config, key by key ================= *)
-Lemma layering_fact : layering_interleaved = true.
-Proof. reflexivity. Qed.
+(* ---------- the other recognised layering: all class defaults first, then all disk sections ---------- *)
+Lemma defaults_step_char cl c :
+  Inv2 (c_own cl) -> Inv2 c ->
+  exists r, apply_defaults false (JObj c) cl = Ok (JObj r) /\ Inv2 r /\
+    forall G, L2law G -> G r = ov (G (c_own cl)) (G c).
+Proof.
+  intros Io Ic. unfold apply_defaults. destruct (level2 (c_own cl) c Io Ic) as [r1 [R1 [I1 _]]].
+  exists r1. split; auto. split; auto. intros G [G0 GL]. apply (GL _ _ _ Io Ic R1).
+Qed.
 
+Lemma section_step_char d cl c :
+  Inv1 d -> Inv2 c ->
+  exists r, apply_section false d (JObj c) cl = Ok (JObj r) /\ Inv2 r /\
+    forall G, L2law G -> G r = ov (getk (c_name cl) G d) (G c).
+Proof.
+  intros Id Ic. unfold apply_section. destruct (dget (c_name cl) d) as [sec|] eqn:E.
+  - destruct (inv1_get d _ _ Id E) as [sd [-> Is]].
+    destruct (level2 sd c Is Ic) as [r2 [R2 [I2 _]]]. exists r2. split; auto. split; auto.
+    intros G [G0 GL]. unfold getk. rewrite E. apply (GL _ _ _ Is Ic R2).
+  - exists c. split; auto. split; auto. intros G _. unfold getk. rewrite E. reflexivity.
+Qed.
+
+Fixpoint scanDef (G : dict -> option json) (L : list cls) (s : option json) : option json :=
+  match L with [] => s | c :: r => scanDef G r (ov (G (c_own c)) s) end.
+
+Fixpoint scanSec (G : dict -> option json) (d : dict) (L : list cls) (s : option json) : option json :=
+  match L with [] => s | c :: r => scanSec G d r (ov (getk (c_name c) G d) s) end.
+
+Lemma fold_defaults : forall L c,
+  Forall (fun cl => Inv2 (c_own cl)) L -> Inv2 c ->
+  exists r, fold_res (apply_defaults false) (JObj c) L = Ok (JObj r) /\ Inv2 r /\
+    forall G, L2law G -> G r = scanDef G L (G c).
+Proof.
+  induction L as [|cl rest IH]; intros c W Ic.
+  - exists c. simpl. auto.
+  - inversion W; subst. destruct (defaults_step_char cl c H1 Ic) as [r1 [R1 [I1 H]]].
+    destruct (IH r1 H2 I1) as [r [R [Ir Hr]]]. exists r. simpl. rewrite R1. simpl. split; auto. split; auto.
+    intros G GL. rewrite (Hr G GL), (H G GL). reflexivity.
+Qed.
+
+Lemma fold_sections d : Inv1 d -> forall L c, Inv2 c ->
+  exists r, fold_res (apply_section false d) (JObj c) L = Ok (JObj r) /\ Inv2 r /\
+    forall G, L2law G -> G r = scanSec G d L (G c).
+Proof.
+  intros Id. induction L as [|cl rest IH]; intros c Ic.
+  - exists c. simpl. auto.
+  - destruct (section_step_char d cl c Id Ic) as [r1 [R1 [I1 H]]].
+    destruct (IH r1 I1) as [r [R [Ir Hr]]]. exists r. simpl. rewrite R1. simpl. split; auto. split; auto.
+    intros G GL. rewrite (Hr G GL), (H G GL). reflexivity.
+Qed.
+
+Lemma scanDef_app G L1 L2 s : scanDef G (L1 ++ L2) s = scanDef G L2 (scanDef G L1 s).
+Proof. revert s. induction L1 as [|c r IH]; intros s; simpl; auto. Qed.
+
+Lemma scanSec_app G d L1 L2 s : scanSec G d (L1 ++ L2) s = scanSec G d L2 (scanSec G d L1 s).
+Proof. revert s. induction L1 as [|c r IH]; intros s; simpl; auto. Qed.
+
+Lemma scanDef_mdef G L : scanDef G L None = mdefG G (rev L).
+Proof.
+  induction L as [|c r IH] using rev_ind; simpl; auto.
+  rewrite scanDef_app, rev_app_distr. simpl. rewrite IH.
+  destruct (G (c_own c)) as [[]|]; reflexivity.
+Qed.
+
+Lemma scanSec_first G d L s :
+  (forall S, getk S G d <> Some JNull) ->
+  scanSec G d L s = match first_set (fun S => getk S G d) (map c_name (rev L)) with Some v => Some v | None => s end.
+Proof.
+  intros NN. induction L as [|c r IH] using rev_ind; simpl; auto.
+  rewrite scanSec_app, rev_app_distr. simpl. rewrite IH.
+  destruct (getk (c_name c) G d) as [v|] eqn:E.
+  - apply ov_nonnull. intros ->. apply (NN (c_name c)). exact E.
+  - rewrite ov_none. reflexivity.
+Qed.
+
+Definition reachG (b : bool) (G : dict -> option json) (M : list cls) : list pystr :=
+  if b then truncG G M else map c_name M.
+
+(* ================= assembling: build_config, key by key ================= *)
 Lemma tables_wf : tables_wfb = true.
 Proof. vm_compute. reflexivity. Qed.
 
@@ -630,29 +684,57 @@ Lemma resolveI_ext G look look' M s :
   (forall S, look S = look' S) -> resolveI G look M s = resolveI G look' M s.
 Proof. intros E. induction M as [|c r IH]; simpl; auto. rewrite E, IH. reflexivity. Qed.
 
+Lemma first_set_ext (look look' : pystr -> option json) l :
+  (forall S, look S = look' S) -> first_set look l = first_set look' l.
+Proof. intros H. induction l as [|x r IH]; simpl; auto. rewrite (H x), IH. reflexivity. Qed.
+
 Definition look_opt (files : list json) (o S : pystr) : option json := files_get (fun f => file_get f S o) files.
 Definition look_ign (files : list json) (p S : pystr) : option json := files_get (fun f => file_get_ign f S p) files.
 
 Lemma config_char ep files :
   In ep ep_names -> wf_filesb files = true ->
   exists c, build_config ep false files = Ok (JObj c) /\ Inv2 c /\
-    (forall o, o <> kIgnore -> dget o c = resolveI (dget o) (look_opt files o) (rev (classes_of ep)) None) /\
+    (forall o, o <> kIgnore ->
+       dget o c = match first_set (look_opt files o) (reachG layering_interleaved (dget o) (rev (classes_of ep))) with
+                  | Some v => Some v
+                  | None => mdefG (dget o) (rev (classes_of ep))
+                  end) /\
     (forall p, getk kIgnore (dget p) c =
-               resolveI (getk kIgnore (dget p)) (look_ign files p) (rev (classes_of ep)) None).
+               match first_set (look_ign files p)
+                               (reachG layering_interleaved (getk kIgnore (dget p)) (rev (classes_of ep))) with
+               | Some v => Some v
+               | None => mdefG (getk kIgnore (dget p)) (rev (classes_of ep))
+               end).
 Proof.
-  intros Hep W. unfold build_config. rewrite (known_ep_in ep Hep), layering_fact. unfold build_config_gen.
-  destruct (disk_char files (wf_files_ok files W)) as [d [R [Id [A B]]]]. rewrite R. simpl.
-  destruct (fold_interleaved d Id (classes_of ep) [] (classes_wf ep Hep) inv2_nil) as [c [Rc [Ic H]]].
-  exists c. split; [exact Rc|]. split; [exact Ic|]. split.
-  - intros o N. rewrite (H (dget o) (L2law_opt o N)). simpl.
-    rewrite scanI_resolve.
-    + apply resolveI_ext. intros S. apply A; exact N.
-    + intros S. rewrite (A S o N). apply files_get_not_null.
-  - intros p. rewrite (H _ (L2law_path p)). simpl.
-    rewrite scanI_resolve.
-    + apply resolveI_ext. intros S. apply (B S p).
-    + intros S. fold (get3 S p d). rewrite (B S p). apply files_get_not_null.
+  intros Hep W. unfold build_config. rewrite (known_ep_in ep Hep). unfold build_config_gen.
+  destruct (disk_char files (wf_files_ok files W)) as [d [R [Id [A B]]]].
+  assert (NA : forall o, o <> kIgnore -> forall S, getk S (dget o) d <> Some JNull).
+  { intros o N S. rewrite (A S o N). apply files_get_not_null. }
+  assert (NB_ : forall p S, getk S (getk kIgnore (dget p)) d <> Some JNull).
+  { intros p S. fold (get3 S p d). rewrite (B S p). apply files_get_not_null. }
+  destruct layering_interleaved; rewrite R; simpl bind; cbv beta iota.
+  - destruct (fold_interleaved d Id (classes_of ep) [] (classes_wf ep Hep) inv2_nil) as [c [Rc [Ic H]]].
+    exists c. split; [exact Rc|]. split; [exact Ic|]. unfold reachG. split.
+    + intros o N. rewrite (H (dget o) (L2law_opt o N)). simpl.
+      rewrite scanI_resolve; [|apply NA; exact N]. rewrite resolveI_first.
+      rewrite (first_set_ext _ (look_opt files o)); [reflexivity|]. intros S. apply A; exact N.
+    + intros p. rewrite (H _ (L2law_path p)). simpl.
+      rewrite scanI_resolve; [|apply NB_]. rewrite resolveI_first.
+      rewrite (first_set_ext _ (look_ign files p)); [reflexivity|]. intros S. apply (B S p).
+  - destruct (fold_defaults (classes_of ep) [] (classes_wf ep Hep) inv2_nil) as [c0 [R0 [I0 H0]]].
+    rewrite R0. simpl bind.
+    destruct (fold_sections d Id (classes_of ep) c0 I0) as [c [Rc [Ic H]]].
+    exists c. split; [exact Rc|]. split; [exact Ic|]. unfold reachG. split.
+    + intros o N. rewrite (H (dget o) (L2law_opt o N)), (H0 (dget o) (L2law_opt o N)). simpl.
+      rewrite scanSec_first; [|apply NA; exact N]. rewrite scanDef_mdef.
+      rewrite (first_set_ext _ (look_opt files o)); [reflexivity|]. intros S. apply A; exact N.
+    + intros p. rewrite (H _ (L2law_path p)), (H0 _ (L2law_path p)). simpl.
+      rewrite scanSec_first; [|apply NB_]. rewrite scanDef_mdef.
+      rewrite (first_set_ext _ (look_ign files p)); [reflexivity|]. intros S. apply (B S p).
 Qed.
+
+Lemma reach_names_reachG b o M : reach_names b o M = reachG b (dget o) M.
+Proof. unfold reach_names, reachG. destruct b; auto. apply trunc_names_truncG. Qed.
 
 (* sections outside the ones that may set option o never mention it in a well-formed file *)
 Lemma file_sec_opt kv S s o v :
@@ -692,10 +774,9 @@ Proof.
   intros Hep N C W. destruct (config_char ep files Hep W) as [c [R [_ [Ho _]]]].
   unfold effective, spec_effective. rewrite R. simpl. f_equal.
   destruct (dget o flags); auto.
-  rewrite (dget_ddel_other kIgnore o c N), (Ho o N), resolveI_first.
-  unfold conforms in C. rewrite layering_fact in C. simpl in C. apply list_str_eqb_eq in C.
-  rewrite trunc_names_truncG in C.
-  rewrite (first_set_filter (look_opt files o) (inA o) (truncG _ _)); [|intros S; apply look_opt_outside; exact W].
+  rewrite (dget_ddel_other kIgnore o c N), (Ho o N).
+  unfold conforms in C. apply list_str_eqb_eq in C. rewrite reach_names_reachG in C.
+  rewrite (first_set_filter (look_opt files o) (inA o) (reachG _ _ _)); [|intros S; apply look_opt_outside; exact W].
   rewrite C.
   rewrite <- (first_set_filter (look_opt files o) (inA o) (spec_sections ep)); [|intros S; apply look_opt_outside; exact W].
   unfold look_opt.
@@ -726,7 +807,10 @@ Proof.
   { apply Forall_forall. intros cl I. apply in_rev in I. rewrite forallb_forall in C1.
     apply ignore_default_none. apply C1; exact I. }
   destruct (no_ignore_defaults _ _ D) as [T M].
-  specialize (Hp p). rewrite resolveI_first, T, M in Hp.
+  specialize (Hp p). rewrite M in Hp.
+  assert (T' : reachG layering_interleaved (getk kIgnore (dget p)) (rev (classes_of ep)) = map c_name (rev (classes_of ep))).
+  { unfold reachG. destruct layering_interleaved; auto. }
+  rewrite T' in Hp.
   rewrite (first_set_filter (look_ign files p) (inA kIgnore) (map c_name _)) in Hp;
     [|intros S; apply look_ign_outside; exact W].
   rewrite C2 in Hp.
@@ -814,15 +898,6 @@ Proof.
     by (vm_compute; reflexivity).
   rewrite forallb_forall in T. specialize (T _ I). simpl in T. apply orb_true_iff in T as [T|T]; auto.
   apply str_eqb_eq in T. contradiction.
-Qed.
-
-Lemma global_never_participates cn : participates kGlobal cn = false.
-Proof.
-  unfold participates. apply not_true_is_false. intros H. apply existsb_exists in H as [e [I H]].
-  apply andb_true_iff in H as [_ H].
-  assert (T : forallb (fun e => negb (existsb (str_eqb kGlobal) (match alookup (fst e) ep_mro with Some l => l | None => [] end))) entrypoints = true)
-    by (vm_compute; reflexivity).
-  rewrite forallb_forall in T. specialize (T e I). rewrite H in T. discriminate.
 Qed.
 
 Lemma documented_sections_known :
